@@ -175,6 +175,11 @@ func (p *c13) gen(r *lib.Rand) *numCase {
 			v = new(big.Rat).Add(n.cr, d)
 			if n.op == "mult" {
 				v = new(big.Rat).SetInt64(int64(r.Range(-5, 20)))
+			} else if r.P(0.06) {
+				// the far ends of the integer kinds (far from any bound: the verdict is obvious, a wrapped or
+				// sign-flipped conversion is not)
+				v = rat([]string{"18446744073709551615", "9223372036854775808", "9223372036854775809", "9223372036854775807", "-9223372036854775808",
+					"4294967295", "4294967296", "2147483648", "-2147483649", "18446744073709551614"}[r.Intn(10)])
 			}
 		}
 		k := gen.NumKinds[r.Intn(len(gen.NumKinds))]
